@@ -157,6 +157,12 @@ def deep_copy_rule(index: RepoIndex, rep, rule: str) -> None:
     # ... and it is the caller's state that is copied, once, and the copy that is returned
     from .wiring import step_on_callers_state
     step_on_callers_state(index, rep, rule)
+    # ... and a driven history is made of such steps: InnerEnv.step installs the state of one
+    # functional_step of the current state on every path and returns its reward and flag;
+    # OuterEnv.step / reset hand the action to the inner environment exactly once
+    from .c04 import outer_delegation, state_machine
+    state_machine(index, rep, rule)
+    outer_delegation(index, rep, rule)
 
 
 def run(index: RepoIndex, rep) -> None:
